@@ -48,4 +48,29 @@ var registry = map[string]propCfg{
 		Assumptions: []string{"process-crash semantics: a completed write survives (leveldb is written without sync and the block file is never fsynced, so power loss is out of scope of the statement)", "a leveldb batch is atomic; block-file writes reach the file in issue order", "torn records inside one write are an extra, separately labelled probe (thorough tier)"},
 		Components:  ledgerComponents,
 	},
+	"C18": {
+		Engine: "poolsim", Level: "exploration",
+		Quick:       tierCfg{Runs: 6000, BudgetS: 90, MinimiseS: 30},
+		Thorough:    tierCfg{Runs: 600000, BudgetS: 1200, MinimiseS: 180},
+		Rule:        poolRule,
+		Assumptions: poolAssumptions, Components: poolComponents,
+	},
+	"C19": {
+		Engine: "poolsim", Level: "exploration",
+		Quick:       tierCfg{Runs: 6000, BudgetS: 90, MinimiseS: 30},
+		Thorough:    tierCfg{Runs: 600000, BudgetS: 1200, MinimiseS: 180},
+		Rule:        poolRule + "; C19 additionally ends every run with the continuation 'generate and commit batches until the pool reports no pending work' and checks that every admitted transaction whose lower nonces are present was batched",
+		Assumptions: poolAssumptions, Components: poolComponents,
+	},
+}
+
+const poolRule = "one case = a seeded sequence of pool operations and faults (submit single/multi, leader/follower, local/remote, in order, gaps, duplicates by hash, conflicting transactions of equal nonce, stale nonces; GenerateBlock; commit notifications in order, out of order, partial, duplicated, and of blocks containing transactions this pool never received; batch-sequence resets; fake-clock advances with rebroadcast and age-based removal; pool restart from ledger nonces) with per-run account count 1-4, batch size 1-8, pool size, timed mode, executed on the real mempool inside a testing/synctest bubble (fake clock) next to a reference model; non-trivial = at least one batch produced and one commit delivered; distinct = distinct event-log digests"
+
+var poolAssumptions = []string{"admission is judged by the documented entry filter observed through GetPendingNonceByAccount/GetTransaction just before the call", "the ledger's committed nonce advances when a commit notification is delivered", "ordering between pools on different replicas is C20's business"}
+
+var poolComponents = map[string]string{
+	"pkg/order/mempool (mempoolImpl, transactionStore, btree indices, nonce cache)": "real",
+	"clock":                                 "fake (testing/synctest bubble)",
+	"ledger nonce source (GetAccountNonce)": "stub: model ledger",
+	"consensus / network / executor":        "not run by this engine (see ordersim)",
 }
